@@ -204,6 +204,13 @@ def TFile.lines (f : TFile) : List (List Tok) := f.header ++ f.rows
 def importT (f : TFile) (dims : List Rat) (ignored : Nat) : Except Err (List (List Rat)) :=
   importCore f.lines.length (readAll (f.lines.drop ignored).flatten) dims ignored
 
+/-- `Export_List` at token level: one value per line -/
+def exportListT (data : List Rat) (dim : Rat) (header : List (List Tok)) : List (List Tok) :=
+  header ++ data.map (fun x => [tokOf (x / dim)])
+
+/-- what comes back for one entry: the six-digit token's value times the unit -/
+def back (x u : Rat) : Rat := ((tokOf (x / u)).value.getD 0) * u
+
 def importListT (lines : List (List Tok)) (dim : Rat) (ignored : Nat) : List Rat :=
   (readAll (lines.drop ignored).flatten).map (· * dim)
 
